@@ -84,7 +84,7 @@ theorem parse_print_den (lt : Expr → Expr → Bool) (e : Expr) (hb : built lt 
     exact ⟨e', by simp only [he'], hd⟩
 
 /-- the meaning clause with the object returned by the parser named explicitly -/
-theorem parse_print_den' (lt : Expr → Expr → Bool) (e e' : Expr) (hb : built lt e = true)
+theorem parse_print_den_of (lt : Expr → Expr → Bool) (e e' : Expr) (hb : built lt e = true)
     (hp : PyEval.parseY0 lt (Print.expr e) = .ok e') (env : Env) (σ' σ : Y0.Val) :
     den env σ' e' σ = den env σ' e σ := by
   obtain ⟨e'', h1, h2⟩ := parse_print_den lt e hb
